@@ -152,6 +152,15 @@ func c14ExecRun(t *rapid.T) {
 	for i := 0; i < nprog; i++ {
 		progs = append(progs, genProgram(t, genOpts{tolerant: true, toleratedOnly: true, lateLet: true, probes: true, mapRegions: true, pureMapBody: true, sideEffects: true, failing: true, failPct: 10, probePct: 15, maxPieces: 4, maxDepth: 2, litModePct: 24, brokenPct: 10}))
 	}
+	if scenario == 3 && nprog >= 2 && uni(t, "crlfcopy", 3) == 0 && strings.Contains(progs[0].Main, "\n") {
+		// two texts that differ only in their line endings go through the cache at the same time
+		cp := *progs[0]
+		cp.Main = strings.ReplaceAll(strings.ReplaceAll(progs[0].Main, "\r\n", "\n"), "\n", "\r\n")
+		if cp.Main != progs[0].Main {
+			progs[1] = &cp
+			count("c14_s3_line_ending_twins", 1)
+		}
+	}
 	cacheOn := scenario == 3 || rapid.Bool().Draw(t, "cache")
 	warm := uni(t, "warm", 3) // 0 cold, 1 some, 2 all
 	mp := drawMapOrder(t)
